@@ -295,6 +295,7 @@ pub fn memory_check(args: &[String], n: usize, seed: u64, long_lines: bool, many
         let mut rng = Rng::new(mix(seed, &[tag("C11"), tag("mem")]));
         let gp = GenParams { flavor: gen::Flavor::Git, sections: vec![], max_hunks: 1, pivot: 3, max_run: 8, with_commit_preamble: false, multibyte: false, no_newline_marker: false, similar_pairs: true, no_index_lines: false, no_prefix: false, line_number_class: 0 };
         let mut lines: Vec<GLine> = Vec::new();
+        let mut templates: Vec<Vec<GLine>> = Vec::new();
         let mut tok = 0usize;
         // `many_files`: one hunk per file section, i.e. the number of files grows with the input
         let per_section = if many_files { 1 } else { 50 };
@@ -303,7 +304,17 @@ pub fn memory_check(args: &[String], n: usize, seed: u64, long_lines: bool, many
         while produced < reps {
             // one section with `per_section` hunks: generate single-hunk sections and strip repeated headers
             for h in 0..per_section.min(reps - produced) {
-                let sec = gen::generate_section(&mut rng, &gp, gen::SectionKind::Modified, s, tok);
+                // a fixed repertoire of hunks, repeated (content-keyed caches are warm early);
+                // with one file per hunk the file names stay distinct
+                let sec = if templates.len() < 100 || many_files {
+                    let x = gen::generate_section(&mut rng, &gp, gen::SectionKind::Modified, s, tok);
+                    if templates.len() < 100 {
+                        templates.push(x.clone());
+                    }
+                    x
+                } else {
+                    templates[produced % 100].clone()
+                };
                 tok += sec.iter().filter(|l| l.token.is_some()).count();
                 for mut l in sec {
                     if h > 0 && l.kind == LineKind::Meta {
